@@ -70,6 +70,45 @@ func c03Gen(tier string, r *rand.Rand) []Case {
 			}
 		}
 	}
+	// every assignment of {valid, wrong but well formed, malformed (right length), outside G1} to the
+	// positions, n <= 4: malformed entries are pre-marked INVALID by the C layer and must stay so even when
+	// the descent reaches their leaf because a sibling is wrong
+	kinds3 := []string{"good", "off", "badsig-header", "badsig-torsion"}
+	maxK := 3
+	if tier == "thorough" {
+		maxK = 4
+	}
+	for n := 2; n <= maxK; n++ {
+		total := 1
+		for i := 0; i < n; i++ {
+			total *= len(kinds3)
+		}
+		for code := 0; code < total; code++ {
+			var lv []c03Leaf
+			c := code
+			nbad := 0
+			for i := 0; i < n; i++ {
+				x := rsc()
+				switch kinds3[c%len(kinds3)] {
+				case "good":
+					lv = append(lv, good(x))
+				case "off":
+					lv = append(lv, off(x, rsc()))
+				default:
+					lv = append(lv, c03Leaf{kinds3[c%len(kinds3)], h32(x), h32(x)})
+					nbad++
+				}
+				c /= len(kinds3)
+			}
+			if nbad == 0 {
+				continue // covered by the subsets family
+			}
+			add("mixed-kinds", "hook", lv, rbytes(r, 16*n))
+			if code%3 == 0 {
+				add("mixed-kinds-api", "api", lv, nil)
+			}
+		}
+	}
 	// adversarial cancellations (fool the tree only when all coefficients are equal)
 	for _, n := range []int{2, 3, 4, 5, 7, 8, 9, 16, 17, 33} {
 		if tier != "thorough" && n > 9 {
